@@ -3,7 +3,7 @@
 # breaks, revert, and write /verif/seeded/KILL_MATRIX.md (development aid; never leaves /repo modified)
 cd "$(dirname "$0")"
 git -C /repo diff --quiet || { echo "/repo has uncommitted changes"; exit 2; }
-IDS=${@:-$(ls seeded | grep -E '^C[0-9]+-[0-9]+$')}
+IDS=${@:-$(ls seeded | grep -E '^C[0-9]+(r[0-9]+)?-[0-9]+$')}
 OUT=seeded/KILL_MATRIX.md
 TMP=$(mktemp)
 for id in $IDS; do
